@@ -1,6 +1,7 @@
 //! vkit: shared machinery of the vek property checks (tapes, scalar domains, reference math, driver).
 pub mod dom;
 pub mod driver;
+pub mod gens;
 pub mod rat;
 pub mod refmath;
 pub mod sym;
